@@ -166,6 +166,7 @@ class ExchangeMove(
                     (context._added_indices, indices), dtype=np.int_, casting="unsafe"
                 )
                 context._added_atoms += context.atoms[indices]
+                context._added_sizes.append(len(indices))
                 context.particle_delta += 1
 
                 return self.register_success()
@@ -289,6 +290,7 @@ class CompositeExchangeMove(CompositeMove[ExchangeMove]):
                         casting="unsafe",
                     )
                     context._added_atoms += context.atoms[indices]
+                    context._added_sizes.append(len(indices))
                     context.particle_delta += 1
                     success = True
 
